@@ -144,6 +144,7 @@ type FuncVC struct {
 	splitTerm     string
 	callOrd       map[string]int
 	firedGhosts   map[*GhostClause]bool
+	skippedKinds  map[string]int
 	groundDefs    map[string]bool
 	pendingDefs   []string
 	marked        map[string]bool
@@ -289,6 +290,19 @@ func (f *FuncVC) freshConst(prefix, sort string) string {
 }
 
 func (f *FuncVC) oblig(kind string, st *State, goal string, pos token.Pos, detail string) *Obligation {
+	if f.C != nil && f.C.Opts["kinds"] != "" && kind != "reach" && kind != "split.cover" && !strings.HasPrefix(kind, "loop") && kind != "assert" {
+		// this contract claims only some kinds of obligations for the function (stated in the evidence)
+		ok := false
+		for _, k := range strings.Split(f.C.Opts["kinds"], ",") {
+			if kind == strings.TrimSpace(k) {
+				ok = true
+			}
+		}
+		if !ok {
+			f.skippedKinds[kind]++
+			return &Obligation{Name: "skipped", Kind: kind, fv: f}
+		}
+	}
 	f.counters[kind]++
 	o := &Obligation{
 		Name:   fmt.Sprintf("%s/%s#%d", f.Key, kind, f.counters[kind]),
@@ -308,7 +322,7 @@ func (f *FuncVC) oblig(kind string, st *State, goal string, pos token.Pos, detai
 	f.obls = append(f.obls, o)
 	// A checked obligation is available as a fact afterwards (assert-then-assume): if it fails it is reported,
 	// so nothing is lost, and later obligations need not re-derive it.
-	if strings.HasPrefix(kind, "panic") || strings.HasPrefix(kind, "overflow") || strings.HasPrefix(kind, "pre(") {
+	if kind == "panic" || strings.HasPrefix(kind, "overflow") || strings.HasPrefix(kind, "pre(") {
 		if goal != "false" {
 			f.emit("(assert " + implies(st.reach, goal) + ")")
 		}
